@@ -104,7 +104,7 @@ func verifyFromBtcTx(native *native.NativeService, proof, tx []byte, fromChainID
 		return nil, fmt.Errorf("VerifyFromBtcProof, side chain is not registered")
 	}
 	bestHeight := bestHeader.Height
-	if bestHeight < height || bestHeight-height < uint32(sideChain.BlocksToWait-1) {
+	if bestHeight < height || uint64(bestHeight-height) < sideChain.BlocksToWait-1 {
 		return nil, fmt.Errorf("verifyFromBtcTx, transaction is not confirmed, current height: %d, input height: %d", bestHeight, height)
 	}
 
